@@ -75,6 +75,93 @@ func init() {
 		return v, true
 	}
 
+	// Readers/closers handed to us by net/http or by a backend are foreign
+	// objects with their own state: Read and Close do not touch the memory of
+	// the verified packages. Read returns 0 <= n <= len(buf).
+	closeFn := func(x *Exec, fr *Frame, st *State, cc *ssa.CallCommon, a []Val) (Val, bool) {
+		x.disown(st, a[0], "closed")
+		x.funcsUsed["lib:io.Reader/io.Closer (foreign objects: Read returns 0<=n<=len(buf); no effect on the verified packages' memory)"] = true
+		return x.freshVal(st, "close_err", errT), true
+	}
+	readFn := func(x *Exec, fr *Frame, st *State, cc *ssa.CallCommon, a []Val) (Val, bool) {
+		n := x.freshVal(st, "read_n", intT)
+		x.te.SortOf(cc.Args[0].Type())
+		st.assume(And(Le(IntLit(0), n.T), Le(n.T, sliceLen(a[1].T))))
+		x.funcsUsed["lib:io.Reader/io.Closer (foreign objects: Read returns 0<=n<=len(buf); no effect on the verified packages' memory)"] = true
+		return Val{Tup: []Val{n, x.freshVal(st, "read_err", errT)}}, true
+	}
+	for _, it := range []string{"io.ReadCloser", "io.Closer", "io.WriteCloser", "io.ReadSeekCloser"} {
+		libTable["iface:"+it+".Close"] = closeFn
+	}
+	for _, it := range []string{"io.ReadCloser", "io.Reader", "io.ReadSeekCloser"} {
+		libTable["iface:"+it+".Read"] = readFn
+	}
+	libTable["(github.com/opencontainers/go-digest.Algorithm).Hash"] = func(x *Exec, fr *Frame, st *State, cc *ssa.CallCommon, a []Val) (Val, bool) {
+		// panics for an unavailable algorithm (callers establish validity of the digest); otherwise a fresh hash
+		h := x.freshVal(st, "hash", cc.Signature().Results().At(0).Type())
+		st.assume(Not(Eq(h.T, NilIface)))
+		x.funcsUsed["lib:go-digest Algorithm.Hash returns a non-nil hash for a registered algorithm (panics otherwise: callers must pass validated digests)"] = true
+		return h, true
+	}
+	libTable["io.ReadAll"] = func(x *Exec, fr *Frame, st *State, cc *ssa.CallCommon, a []Val) (Val, bool) {
+		T := cc.Signature().Results().At(0).Type()
+		data := x.freshVal(st, "readall", T)
+		return Val{Tup: []Val{data, x.freshVal(st, "readall_err", errT)}}, true
+	}
+	libTable["io.LimitReader"] = func(x *Exec, fr *Frame, st *State, cc *ssa.CallCommon, a []Val) (Val, bool) {
+		r := x.freshVal(st, "limitreader", cc.Signature().Results().At(0).Type())
+		st.assume(Not(Eq(r.T, NilIface)))
+		return r, true
+	}
+	libTable["io.NopCloser"] = libTable["io.LimitReader"]
+
+	// (*http.Client).Do: on success a well-formed response
+	libTable["(*net/http.Client).Do"] = func(x *Exec, fr *Frame, st *State, cc *ssa.CallCommon, a []Val) (Val, bool) {
+		respT := cc.Signature().Results().At(0).Type()
+		resp := x.freshVal(st, "http_resp", respT)
+		err := x.freshVal(st, "http_err", errT)
+		x.knownRef(st, resp.T)
+		x.httpRespFacts(st, resp, respT, Eq(err.T, NilIface))
+		st.assume(Implies(Not(Eq(err.T, NilIface)), Eq(resp.T, IntLit(0))))
+		x.funcsUsed["lib:(*net/http.Client).Do (on success: non-nil response with non-nil Body and Request, Request.URL non-nil; the request sent is not otherwise modelled)"] = true
+		return Val{Tup: []Val{resp, err}}, true
+	}
+	libTable["net/http.NewRequestWithContext"] = func(x *Exec, fr *Frame, st *State, cc *ssa.CallCommon, a []Val) (Val, bool) {
+		reqT := cc.Signature().Results().At(0).Type()
+		req := x.freshVal(st, "http_req", reqT)
+		err := x.freshVal(st, "newreq_err", errT)
+		x.knownRef(st, req.T)
+		ok := Eq(err.T, NilIface)
+		st.assume(Eq(ok, Not(Eq(req.T, IntLit(0)))))
+		x.httpReqFacts(st, req, reqT, ok)
+		x.funcsUsed["lib:net/http.NewRequestWithContext (on success: non-nil request with non-nil URL and Header)"] = true
+		return Val{Tup: []Val{req, err}}, true
+	}
+	libTable["net/url.Parse"] = func(x *Exec, fr *Frame, st *State, cc *ssa.CallCommon, a []Val) (Val, bool) {
+		uT := cc.Signature().Results().At(0).Type()
+		u := x.freshVal(st, "url", uT)
+		err := x.freshVal(st, "url_err", errT)
+		x.knownRef(st, u.T)
+		st.assume(Eq(Eq(err.T, NilIface), Not(Eq(u.T, IntLit(0)))))
+		return Val{Tup: []Val{u, err}}, true
+	}
+	libTable["(*net/url.URL).Parse"] = func(x *Exec, fr *Frame, st *State, cc *ssa.CallCommon, a []Val) (Val, bool) {
+		return libTable["net/url.Parse"](x, fr, st, cc, a[1:])
+	}
+	libTable["(*net/url.URL).ResolveReference"] = func(x *Exec, fr *Frame, st *State, cc *ssa.CallCommon, a []Val) (Val, bool) {
+		u := x.freshVal(st, "url", cc.Signature().Results().At(0).Type())
+		st.assume(Not(Eq(u.T, IntLit(0))))
+		return u, true
+	}
+	libTable["(*net/url.URL).String"] = func(x *Exec, fr *Frame, st *State, cc *ssa.CallCommon, a []Val) (Val, bool) {
+		return x.freshVal(st, "urlstr", strT), true
+	}
+	libTable["(*net/url.URL).Query"] = func(x *Exec, fr *Frame, st *State, cc *ssa.CallCommon, a []Val) (Val, bool) {
+		q := x.freshVal(st, "query", cc.Signature().Results().At(0).Type())
+		st.assume(Not(Eq(q.T, IntLit(0))))
+		return q, true
+	}
+
 	// fmt.Sprint(x) for a single integer or string argument
 	libTable["fmt.Sprint"] = func(x *Exec, fr *Frame, st *State, cc *ssa.CallCommon, a []Val) (Val, bool) {
 		if len(a[0].Elems) == 1 && a[0].Elems[0].Dyn != nil {
@@ -218,3 +305,43 @@ func (e *Env) respBodyLen() (Term, bool) {
 
 var _ = strings.TrimSpace
 var _ = fmt.Sprint
+
+func (x *Exec) structFieldTerm(st *State, T types.Type, ref Term, field string) (Term, types.Type, bool) {
+	pt, ok := T.Underlying().(*types.Pointer)
+	if !ok {
+		return Term{}, nil, false
+	}
+	si := x.te.Struct(pt.Elem())
+	i := si.FieldIndex(field)
+	if i < 0 {
+		return Term{}, nil, false
+	}
+	key, sort := x.fieldComp(si, i)
+	return Select(x.heapGet(st, key, sort), ref), si.FTypes[i], true
+}
+
+func (x *Exec) httpRespFacts(st *State, resp Val, respT types.Type, ok Term) {
+	var fs []Term
+	fs = append(fs, Not(Eq(resp.T, IntLit(0))))
+	if b, _, found := x.structFieldTerm(st, respT, resp.T, "Body"); found {
+		fs = append(fs, Not(Eq(b, NilIface)))
+	}
+	if rq, rqT, found := x.structFieldTerm(st, respT, resp.T, "Request"); found {
+		fs = append(fs, Not(Eq(rq, IntLit(0))))
+		if u, _, found := x.structFieldTerm(st, rqT, rq, "URL"); found {
+			fs = append(fs, Not(Eq(u, IntLit(0))))
+		}
+	}
+	st.assume(Implies(ok, And(fs...)))
+}
+
+func (x *Exec) httpReqFacts(st *State, req Val, reqT types.Type, ok Term) {
+	var fs []Term
+	if u, _, found := x.structFieldTerm(st, reqT, req.T, "URL"); found {
+		fs = append(fs, Not(Eq(u, IntLit(0))))
+	}
+	if h, _, found := x.structFieldTerm(st, reqT, req.T, "Header"); found {
+		fs = append(fs, Not(Eq(h, IntLit(0))))
+	}
+	st.assume(Implies(ok, And(fs...)))
+}
